@@ -51,9 +51,7 @@ TRUSTED_EXTRA = [
 KNOWN_STACK = "stack-overflow-deep-nesting"
 KNOWN_RKYV = "rkyv-empty-str-null-box"
 # (source file suffix, enclosing fn) of a panic -> key of a known finding (none is open today)
-KNOWN_SITES = {
-    ("crates/air-lib/interpreter-data/src/executed_state/impls.rs", "fmt"): "fold-state-display-index",
-}
+KNOWN_SITES = {}
 
 HEADER_C = "From Aqua Require Import Base Trace Handler HandlerCases CrashCases.\nOpen Scope N_scope.\nOpen Scope Z_scope.\nOpen Scope list_scope.\n"
 HEADER_H = "From Aqua Require Import Base Trace Handler HandlerCases CrashCases.\nOpen Scope N_scope.\nOpen Scope list_scope.\n"
@@ -196,10 +194,10 @@ SCRIPT_RECIPES = [
 
 def gen_cases(rng, tier, escalate=False):
     big = tier == "thorough" or escalate
-    n_tamper = 2600 if big else 330
-    n_bytes = 2400 if big else 230
-    n_text = 2400 if big else 180
-    n_handler = 900 if big else 110
+    n_tamper = 2600 if big else 270
+    n_bytes = 2400 if big else 180
+    n_text = 2400 if big else 150
+    n_handler = 900 if big else 40
     cases = []
     # ---- tamper catalogue
     for _ in range(n_tamper):
@@ -288,17 +286,17 @@ def gen_cases(rng, tier, escalate=False):
     # ---- trace-handler level: protocol-following drivers over mutated traces
     for _ in range(n_handler):
         cases.append(handler_case(rng))
-    cases.extend(handler_boundary_cases())
+    cases.extend(handler_boundary_cases(big))
     return cases
 
 
 HB = [0, 1, 2, 3, 7, 2 ** 31, 2 ** 32 - 2, 2 ** 32 - 1]
 
 
-def handler_boundary_cases():
+def handler_boundary_cases(big=False):
     """the position / length fields of one fold lore entry over the whole boundary grid, on a trace built from scratch
     (current data only): every combination reaches set_position_and_len / set_subtrace_len of the current slider"""
-    grid = [0, 1, 2, 3, 4, 2 ** 31, 2 ** 32 - 2, 2 ** 32 - 1]
+    grid = [0, 1, 2, 3, 4, 2 ** 31, 2 ** 32 - 2, 2 ** 32 - 1] if big else [0, 1, 3, 2 ** 31, 2 ** 32 - 1]
     ops_seq = [["ap_auto", 0], ["fold_start", 1], ["iter_pos", 1, 0], ["call_auto", ["scalar", "q"], True], ["iter_end", 1], ["back", 1],
                ["call_auto", ["scalar", "r"], True], ["gen_end", 1], ["fold_end", 1], ["sizes"]]
     ops_par = [["ap_auto", 0], ["fold_start", 1], ["iter_pos", 1, 0], ["par_start"], ["call_auto", ["scalar", "q"], True], ["par_end", True],
